@@ -508,17 +508,22 @@ def views(ix, R):
             c_ = _Conv2(fl_.tab, dict(fl_.env, **{v: fl_.tab.name('c')}), fl_.canon)
             t_rf = c_.expr(lc.elt.test)
             w_ = _Conv2(fl_.tab, {}, fl_.canon)
-            if fl_.tab.equal(t_rf, w_.parse("c[4] == 'linear'")):
-                disc[nm] = 'tuple mode (slot 4)'
-            elif fl_.tab.equal(t_rf, w_.parse('self._fit_priors[c[0]].priorMode is PriorMode.LINEAR')):
-                disc[nm] = 'prior mode'
-            else:
-                disc[nm] = t
-            forms[nm] = (ren(unparse(lc.elt.body)), ren(unparse(lc.elt.orelse)))
+            # the test in canonical polarity: `A if c == 'linear' else B` and `B if c != 'linear' else A` are one view
+            ct_, ft_ = fl_.tab.canon_cond(t_rf)
+            swap = False
+            disc[nm] = t
+            for label, txt in (('tuple mode (slot 4)', "c[4] == 'linear'"),
+                               ('prior mode', 'self._fit_priors[c[0]].priorMode is PriorMode.LINEAR')):
+                cw_, fw_ = fl_.tab.canon_cond(w_.parse(txt))
+                if fl_.tab.equal(ct_, cw_):
+                    disc[nm] = label
+                    swap = ft_ != fw_
+            lin_, log_ = (lc.elt.orelse, lc.elt.body) if swap else (lc.elt.body, lc.elt.orelse)
+            forms[nm] = (ren(unparse(lin_)), ren(unparse(log_)))
             from sa.algebra import Conv as _Conv, Table as _Table
             _t = forms.setdefault('@tab', _Table())
             _c = _Conv(_t, {v: _t.name('c')}, None)
-            forms['@' + nm] = (_c.expr(lc.elt.body), _c.expr(lc.elt.orelse))
+            forms['@' + nm] = (_c.expr(lin_), _c.expr(log_))
     want = {
         'fit_values': ('c[2]()', 'math.log10(c[2]())'),
         'fit_boundaries': ('c[-1]', '(math.log10(c[-1][0]), math.log10(c[-1][1]))'),
@@ -834,6 +839,20 @@ def collect(ix, R):
         fresh = len(init) == 1 and not init[0].guards and not init[0].loops and \
             fmt(fl, unalloc(fl, init[0].value)) in ('dict()', 'tuple()') and \
             (not ups or fl.events.index(init[0]) < fl.events.index(ups[0]))
+        if not fresh and len(init) == 1 and not init[0].guards and not init[0].loops and \
+                (not ups or fl.events.index(init[0]) < fl.events.index(ups[0])):
+            # a fresh dictionary created FROM one source: dict(X.fitting_parameters())
+            v0 = unalloc(fl, init[0].value)
+            a0 = atom_of(fl, v0)
+            if a0 is not None and a0.head == 'call' and a0.extra[0] == 'fn:dict' and len(a0.args) == 1:
+                for key in srcs:
+                    if fl.tab.equal(a0.args[0], spec(fl, '%s.fitting_parameters()' % key)) and srcs[key] is None:
+                        fresh = True
+                        seen.add(key)
+        # (`seen` is checked here, after the constructor form has had its say)
+        why = [w for w in why if not w.startswith('not collected:')]
+        if seen != set(srcs):
+            why.append('not collected: %s' % sorted(set(srcs) - seen))
         if not fresh:
             why.append('the dictionary is not created afresh first')
         R.check('6.collect', 'TAB', site, stmt, not why,
